@@ -57,6 +57,8 @@ HISTS = {
     # a block [v, f v, w]: the column after the dependent one is new and must be stored (reuse afterwards)
     "block-dep-indep": [("N", "blockdepindep"), ("N", "repeat")],
     # another wrapper object (another matrix) is set up and used in between: wrappers do not share their databases
+    # a block right-hand side with ONE column, shape (n, 1): the answer keeps that shape
+    "block1": [("N", "block1"), ("T", "block1"), ("N", "repeat")],
     "two-wrappers": [("N", "new"), ("other", None), ("N", "repeat"), ("T", "new"), ("other", None), ("T", "repeat")],
 }
 
@@ -84,7 +86,7 @@ def items(tier):
                     continue
                 if hname == "x0" and (mclass != "general" and q or zp and q):
                     continue
-                if hname in ("block-dep-indep", "two-wrappers") and (mclass not in ("general", "symmetric") or (q and zp)):
+                if hname in ("block-dep-indep", "two-wrappers", "block1") and (mclass not in ("general", "symmetric") or (q and zp)):
                     continue
                 if hname == "block-mixed" and q and (mclass != "general" or len(zp) > 1):
                     continue
@@ -352,9 +354,9 @@ def scenario(V, P, cfg):
             kind = kind[:-2]
             shp0 = (n, 2) if kind == "blocknew" else (n,)
             x0 = V.cplxs("g%d" % k, shp0) if cplxA else V.reals("g%d" % k, shp0)
-        if kind in ("new", "cplx", "blocknew") or not same and kind in ("repeat", "scale", "sum", "newplus"):
+        if kind in ("new", "cplx", "blocknew", "block1") or not same and kind in ("repeat", "scale", "sum", "newplus"):
             cp = cplxA or kind == "cplx"
-            shp = (n, 2) if kind == "blocknew" else (n,)
+            shp = (n, 2) if kind == "blocknew" else ((n, 1) if kind == "block1" else (n,))
             xs = V.cplxs("x%d" % k, shp) if cp else V.reals("x%d" % k, shp)
             b = M @ xs
             kind_eff = "new"
